@@ -361,7 +361,9 @@ def write_evidence(prop, tier, seed, obs, sym_results, nat_results, conf, violat
         'paths_explored': sum(r.get('paths', 0) for r in sym_results),
         'claims_total': sum(r.get('claims', 0) for r in sym_results),
         'claims_proved': sum(r.get('proved', 0) for r in sym_results),
-        'vcs_by_backend': {'z3': sum(r.get('checks', 0) for r in sym_results), 'cvc5': 0},
+        'vcs_by_backend': {'z3': sum(r.get('checks', 0) for r in sym_results),
+                           'cvc5': sum(sum(v for k, v in (r.get('cvc5') or {}).items() if k in ('unsat', 'sat', 'unknown', 'error')) for r in sym_results),
+                           'cvc5_verdicts': {k: sum((r.get('cvc5') or {}).get(k, 0) for r in sym_results) for k in ('unsat', 'unknown', 'error', 'sat')}},
         'solver_time_s': round(sum(r.get('solver_s', 0) for r in sym_results), 2),
         'functions_under_contract': ident,
         'inlined_helpers': sorted({q for o in obs for q in o.inlined}),
